@@ -30,7 +30,10 @@ PRED = ["P1.A", "P1.B and i > 2", "x < 5", "i == 3 || b", "not P2.B", "P1.A impl
 EXPR = ["i", "x", "i + j", "P1.li", "a[1]", "bi * 2", "P1.lx", "s.f", "cost", "d", "i - j"]
 BOUND = ["<=10", "<=100", "#<=20", "x<=10", "<=N", "#<=5", "y<=3", "cost<=7"]
 RUNS = ["", ";100", ";7", ";1"]
-PROB = ["0.5", "0.25", "0.9", "0.05", "0.75", "1.0", "0.123456789", "0.7", "0.1", "0.3", "0.30000000000000004", "0.99", "0.6"]
+PATHS = ["strategy.json", "s.json", "out dir/s.json", "C:\\\\tmp\\\\s.json", "a\\\\b", "dir/sub.dir/x(1).json", "q\\\\\\\\z.json", "tab\\\\t.json"]
+# probabilities with one significant digit and extreme magnitudes print in exponent notation without a '.'
+PROB = ["0.00001", "0.0000002", "0.00003", "1.0e-9", "0.99999",
+        "0.5", "0.25", "0.9", "0.05", "0.75", "1.0", "0.123456789", "0.7", "0.1", "0.3", "0.30000000000000004", "0.99", "0.6"]
 
 
 def catalogue(rng, n):
@@ -82,12 +85,12 @@ def catalogue(rng, n):
         "maxE-features": lambda: "maxE(%s)[%s] {%s} -> {%s} : <> %s" % (e(), bd(), "i", "x", p()),
         "minPr": lambda: "minPr[%s] : <> %s" % (bd(), p()),
         "maxPr": lambda: "maxPr[%s] : <> %s" % (bd(), p()),
-        "loadStrategy": lambda: 'loadStrategy {i, P1.li} -> {x} ("strategy.json")',
-        "loadStrategy-plain": lambda: 'loadStrategy("s.json")',
+        "loadStrategy": lambda: 'loadStrategy {i, P1.li} -> {x} ("%s")' % rng.choice(PATHS),
+        "loadStrategy-plain": lambda: 'loadStrategy("%s")' % rng.choice(PATHS),
         "strategy-decl": lambda: "strategy S1 = control: A<> " + p(),
         "strategy-minE": lambda: "strategy S2 = minE(%s)[%s] : <> %s" % (e(), bd(), p()),
         "under": lambda: "strategy S3 = control: A[] %s\nA<> %s under S3" % (p(), p()),
-        "saveStrategy": lambda: 'strategy S4 = control: A<> %s\nsaveStrategy("out.json", S4)' % p(),
+        "saveStrategy": lambda: 'strategy S4 = control: A<> %s\nsaveStrategy("%s", S4)' % (p(), rng.choice(PATHS)),
         "pr-under": lambda: "strategy S5 = minE(%s)[%s] : <> %s\nPr[%s](<> %s) under S5" % (e(), bd(), p(), bd(), p()),
         "mitl-diamond": lambda: "Pr ( <>[%d,%d] %s )" % (rng.randint(0, 3), rng.randint(4, 9), p()),
         "mitl-box": lambda: "Pr ( [][%d,%d] %s )" % (rng.randint(0, 3), rng.randint(4, 9), p()),
@@ -95,6 +98,12 @@ def catalogue(rng, n):
         "mitl-next": lambda: "Pr ( X %s )" % p(),
         "mitl-release": lambda: "Pr ( %s R[%d,%d] %s )" % (p(), rng.randint(0, 3), rng.randint(4, 9), p()),
         "mitl-nested": lambda: "Pr ( (<>[%d,%d] ([][1,2] %s)) || (X %s) )" % (rng.randint(0, 3), rng.randint(4, 9), p(), p()),
+        "mitl-mixed": lambda: "Pr ( ((%s U[0,%d] %s) %s (X %s)) %s (<>[0,%d] %s) )" % (
+            p(), rng.randint(1, 9), p(), rng.choice(["&&", "||"]), p(), rng.choice(["&&", "||"]), rng.randint(1, 9), p()),
+        "mitl-mixed-right": lambda: "Pr ( (X %s) %s ((<>[0,%d] %s) %s ([][1,%d] %s)) )" % (
+            p(), rng.choice(["&&", "||"]), rng.randint(1, 9), p(), rng.choice(["&&", "||"]), rng.randint(2, 9), p()),
+        "pr-until-const": lambda: "Pr[%s%s](%s U %s)" % (bd(), rn(), rng.choice(["true", "1", "b", "i", "false"]),
+                                                       rng.choice(["1", "true", "0", "i", p()])),
         "mitl-conj": lambda: "Pr ( (%s U[0,%d] %s) && %s )" % (p(), rng.randint(1, 9), p(), p()),
     }
     names = sorted(forms)
